@@ -367,3 +367,24 @@ PROPS["C06"] = {
     "quick": [R("TestPropBadEndpoint", 45)],
     "thorough": [R("TestPropBadEndpoint", 120, shards=12, timeout=3000)],
 }
+
+PROPS["C07"] = {
+    "pkg": "c07", "level": "exploration",
+    "rule": ("spool_outage: rapid draws a fault schedule of 2-6 phases (endpoint up|down alternating, incl. down before the first connect and repeated "
+             "outages, 0-400 uniquely numbered lines per phase, pauses 0-120 ms, connection reset or orderly close), always ending up; tuning: "
+             "reconn 20-100 ms, flush 5-50 ms, connbuf, iobuf, spoolbuf 10..10000, maxbytesperfile 500..1M (segment rollovers), syncevery, "
+             "spoolsleep / unspoolsleep, pacing (a pause every 1/3/8 lines). A real destination with spooling on talks to loopback endpoints "
+             "re-created on the same port. Completion: poll until |distinct received| + slow_conn + slow_spool >= |handed| (60 s deadline, only "
+             "ever paid by a failing run), then until the verif-tagged spool backlog accessor reports 0. Oracle: distinct lines never received "
+             "<= slow_conn + slow_spool deltas; every received line was handed and is intact (an unterminated fragment only at the very end of a "
+             "connection and only a prefix of a handed line); duplicates allowed; backlog drained; Shutdown returns. outage_under_load: a steady "
+             "paced stream of 1500-6000 lines with the endpoint killed at 1/3 and back at 2/3, same oracle. Non-trivial: a line handed while down "
+             "was received later (went through the spool) AND a line was seen by two connections (replayed from the redo buffer). Distinct = "
+             "hash(schedule, tuning)."),
+    "level_text": "Generated outage schedules against a real destination with a real disk spool over loopback TCP, exact loss-vs-counted-drops oracle; outage detection timing is the kernel's and scheduler's, so interleavings are sampled.",
+    "level_note": "The harness cannot place an outage between two chosen instructions; outage_under_load raises the hit rate of the window around detection (it exposed the getRedo race, now fixed). Drain deadlines are liveness checks (60 s vs <1 s normal).",
+    "technique": "property-based testing (rapid) with endpoint fault schedules: set-inclusion + accounting oracle over all connection incarnations",
+    "assumptions": ["loopback TCP", "SO_REUSEADDR lets the endpoint come back on the same port"],
+    "quick": [R("TestPropSpoolOutage", 30), P("TestOutageUnderLoad", timeout=900)],
+    "thorough": [R("TestPropSpoolOutage", 90, shards=10, timeout=3000), P("TestOutageUnderLoad", timeout=3000, shards=6)],
+}
